@@ -55,6 +55,10 @@ type Style struct {
 	ItemNoteExtras   int               // >0: inside enum lists with item notes every ItemNoteExtras-th item is followed by a note on a line of its own (nobody's) and item notes end in blanks
 	KeyComments      int               // >0: every KeyComments-th property gets a user comment between its key and its colon or between the colon and the value (### c ### on the line, or # c up to the line end with the rest on the next line)
 	CloseLate        int               // >0: every CloseLate-th multi-line annotation of a value that a sibling follows closes on the next line, and the sibling starts on that closing line
+	EmptyAfterAnn    int               // >0: every EmptyAfterAnn-th multi-line annotation is followed, on its line, by a second annotation without any text (/**/, /* */ or // up to the line end)
+	BlockOverLines   int               // >0: every BlockOverLines-th sibling (property or array item) that would start a line is instead preceded by a ### block comment that opens on the line of its predecessor and closes, over a line break, on the line where the sibling starts
+	EmptyOpen        int               // >0: every EmptyOpen-th empty container that has an annotation carries it behind its opening bracket, closes on the next line and (every other one) has a note behind the closing bracket
+	BlockBeforeRules int               // >0: every BlockBeforeRules-th inline annotation with rules has a ### block ### user comment between the slashes and the rule object
 	RuleOrder        func(n int) []int // permutation of rule indexes (nil = as written)
 	// Per-annotation override hook (nil = use the fields above)
 	Pick func(label string, n int) int
@@ -88,6 +92,67 @@ type printer struct {
 	cl       int  // annotation counter (CloseLate)
 	hasNext  bool // the value being written is followed by a sibling
 	contLine bool // the last annotation closed at the start of a fresh line: the next sibling continues on it
+	eaa      int  // annotation counter (EmptyAfterAnn)
+	bo       int  // sibling counter (BlockOverLines)
+	eo       int  // empty-container counter (EmptyOpen)
+	bb       int  // annotation counter (BlockBeforeRules)
+}
+
+// BlockOvers counts block comments written over a line break between two siblings, EmptyOpens the
+// empty containers annotated behind their opening bracket, BlocksBeforeRules the comments between
+// the slashes of an inline annotation and its rule object.
+var BlockOvers, EmptyOpens, BlocksBeforeRules, TwoNotes, EmptyAfters, Lonelies int64
+
+// blockOver writes, behind the comma that follows the previous sibling, a block comment that runs
+// over a line break; the next sibling then starts on the line the comment closes on. Not behind an
+// inline annotation or a user comment (there the text up to the line end is theirs).
+func (p *printer) blockOver(level int) bool {
+	if p.st.BlockOverLines <= 0 {
+		return false
+	}
+	start := len(p.b)
+	for start > 0 && p.b[start-1] != '\n' && p.b[start-1] != '\r' {
+		start--
+	}
+	if line := string(p.b[start:]); strings.Contains(line, "//") || strings.Contains(line, "#") {
+		return false
+	}
+	p.bo++
+	if p.bo%p.st.BlockOverLines != 0 {
+		return false
+	}
+	p.w([]string{" ### about the next one:", " ###", "###"}[(p.bo/p.st.BlockOverLines)%3])
+	p.w(p.st.NL)
+	p.indent(level)
+	p.w([]string{"it follows ### ", "### ", "{ \" [ // {min: 1} ###"}[(p.bo/p.st.BlockOverLines)%3])
+	BlockOvers++
+	return true
+}
+
+// emptyOpen writes an empty container whose annotation stands behind the opening bracket (which the
+// caller has written).
+func (p *printer) emptyOpen(n *ref.SNode, close, c string, level int) bool {
+	if p.st.EmptyOpen <= 0 || len(n.Rules) == 0 && n.Note == "" {
+		return false
+	}
+	p.eo++
+	if p.eo%p.st.EmptyOpen != 0 {
+		return false
+	}
+	hn := p.hasNext
+	p.hasNext = false // (no late close inside the brackets)
+	p.annotation(n, level)
+	p.hasNext = hn
+	p.w(p.st.NL)
+	p.indent(level)
+	p.w(close)
+	n.End = len(p.b) - 1
+	p.w(c)
+	if k := p.eo / p.st.EmptyOpen; k%2 == 1 {
+		p.w([]string{" // none so far", " // the end"}[(k/2)%2])
+	}
+	EmptyOpens++
+	return true
 }
 
 // PrintSchema renders n and fills Begin/End/AnnBegin/KeyBegin/KeyEnd and rule offsets.
@@ -156,7 +221,18 @@ func (p *printer) stray(level int) {
 		p.sn++
 		if p.sn%p.st.StrayNotes == 0 {
 			p.indent(level)
-			p.w([]string{"// stray note", "/* stray note */", "// stray - note"}[(p.sn/p.st.StrayNotes)%3])
+			switch k := (p.sn / p.st.StrayNotes) % 5; k {
+			case 3, 4:
+				// a multi-line note over two lines and a second note behind its closer: no value starts
+				// on either line, both are nobody's
+				p.w("/* lonely")
+				p.w(p.st.NL)
+				p.indent(level)
+				p.w([]string{"*/ // stray behind a lonely one", "*/ /* second */ // third"}[k-3])
+				Lonelies++
+			default:
+				p.w([]string{"// stray note", "/* stray note */", "// stray - note"}[k])
+			}
 			p.w(p.st.NL)
 		}
 	}
@@ -297,6 +373,13 @@ func (p *printer) annotation(n *ref.SNode, level int) {
 	}
 	p.w(" ")
 	if len(n.Rules) > 0 {
+		if p.st.BlockBeforeRules > 0 && !multi {
+			p.bb++
+			if p.bb%p.st.BlockBeforeRules == 0 {
+				p.w([]string{"### why ### ", "###### ", "###c###"}[(p.bb/p.st.BlockBeforeRules)%3])
+				BlocksBeforeRules++
+			}
+		}
 		p.ruleObject(n.Rules, multi && p.st.SpreadRules, level)
 		if p.st.BlockInRules > 0 && !multi && (p.br/p.st.BlockInRules)%2 == 1 {
 			// a block comment behind the rule object, in front of the note (if any)
@@ -321,6 +404,14 @@ func (p *printer) annotation(n *ref.SNode, level int) {
 			}
 		}
 		p.w(" */")
+		if p.st.EmptyAfterAnn > 0 {
+			// a second annotation without any text behind the first one
+			p.eaa++
+			if p.eaa%p.st.EmptyAfterAnn == 0 {
+				p.w([]string{" /**/", " //", " /* */", "/**/ /**/"}[(p.eaa/p.st.EmptyAfterAnn)%4])
+				EmptyAfters++
+			}
+		}
 	}
 }
 
@@ -448,6 +539,16 @@ func (p *printer) ruleValue(r *ref.SRule, spread bool, level int) {
 						p.w(p.st.NL)
 						p.indent(level + 3)
 						p.w("// about the next value")
+						if k := p.ine / p.st.ItemNoteExtras; k%2 == 1 {
+							// ... and a second one right below it (on the next line or after a blank line)
+							p.w(p.st.NL)
+							if k%4 == 3 {
+								p.w(p.st.NL)
+							}
+							p.indent(level + 3)
+							p.w([]string{"// (in alphabetical order)", "//"}[(k/4)%2])
+							TwoNotes++
+						}
 					}
 				}
 			}
@@ -547,6 +648,9 @@ func (p *printer) node(n *ref.SNode, level int, comma bool) {
 	case ref.SObj:
 		p.w("{")
 		if len(n.Props) == 0 {
+			if p.emptyOpen(n, "}", c, level) {
+				return
+			}
 			p.w(p.emptyGap())
 			p.w("}")
 			n.End = len(p.b) - 1
@@ -572,6 +676,8 @@ func (p *printer) node(n *ref.SNode, level int, comma bool) {
 				}
 			} else if i > 0 && p.contLine {
 				p.w(" ")
+			} else if i > 0 && p.blockOver(level+1) {
+				// (the sibling starts behind the comment)
 			} else {
 				p.w(p.st.NL)
 				p.leadingComments(level + 1)
@@ -635,6 +741,9 @@ func (p *printer) node(n *ref.SNode, level int, comma bool) {
 	case ref.SArr:
 		p.w("[")
 		if len(n.Items) == 0 {
+			if p.emptyOpen(n, "]", c, level) {
+				return
+			}
 			p.w(p.emptyGap())
 			p.w("]")
 			n.End = len(p.b) - 1
@@ -649,6 +758,8 @@ func (p *printer) node(n *ref.SNode, level int, comma bool) {
 		for i, it := range n.Items {
 			if i > 0 && p.contLine {
 				p.w(" ")
+			} else if i > 0 && p.blockOver(level+1) {
+				// (the item starts behind the comment)
 			} else {
 				if i > 0 {
 					p.w(p.st.NL)
